@@ -15,10 +15,18 @@ def main():
     if ours is None:
         ours = json.load(open('KNOWN_FINDINGS.json'))
         theirs = {'findings': []}
-    ids = {f['id'] for f in ours['findings']}
+    byid = {f['id']: f for f in ours['findings']}
     for f in theirs['findings']:
-        if f['id'] not in ids:
+        if f['id'] not in byid:
             ours['findings'].append(f)
+            byid[f['id']] = f
+        elif byid[f['id']].get('what', '')[:60] != f.get('what', '')[:60] and byid[f['id']].get('property') != f.get('property'):
+            # two workers used the same id for different findings: keep both
+            f = dict(f)
+            f['id'] = '%s-%s' % (f['id'], f.get('property'))
+            if f['id'] not in byid:
+                ours['findings'].append(f)
+                byid[f['id']] = f
     for a in sys.argv[1:]:
         old, new = a.split('=')
         for f in ours['findings']:
